@@ -1,6 +1,8 @@
 import checks
+import c11
+import c15
 
-SPECIAL = {"C03": checks.check_C03}
+SPECIAL = {"C03": checks.check_C03, "C11": c11.check_C11, "C15": c15.check_C15}
 
 
 def implemented():
